@@ -87,14 +87,15 @@ var pathID = map[string]int{"in.pdf": 2, "out.pdf": 3, "in2.pdf": 4, "other.dat"
 
 type op struct {
 	name    string
-	proto   string // model protocol (ocaml/C02_glue.ml syntax)
-	dest    string // file name of the destination
-	fin     string // how the body ends: ok / err
-	outPDF  bool   // the existing output must be a PDF (merge append)
-	corrupt bool   // the input is not a PDF (processing error after the staging file was opened)
-	enc     bool   // output is encrypted (validate with the password)
-	stdin   bool   // the child reads in.pdf from stdin (cli stream)
-	noOut   bool   // no out.pdf in the directory (in-place operations)
+	proto   string      // model protocol (ocaml/C02_glue.ml syntax)
+	dest    string      // file name of the destination
+	fin     string      // how the body ends: ok / err
+	outPDF  bool        // the existing output must be a PDF (merge append)
+	corrupt bool        // the input is not a PDF (processing error after the staging file was opened)
+	enc     bool        // output is encrypted (validate with the password)
+	stdin   bool        // the child reads in.pdf from stdin (cli stream)
+	noOut   bool        // no out.pdf in the directory (in-place operations)
+	mode    os.FileMode // permission bits of the destination before the run (0 = 0640 for in.pdf, 0600 for out.pdf)
 	run     func(dir string) error
 }
 
@@ -124,6 +125,16 @@ func ops() []op {
 			run: func(d string) error {
 				return pdfcpu.WriteReader(p(d, "out.pdf"), bytes.NewReader(bytes.Repeat([]byte("new content "), 3000)))
 			}},
+		// write-protected destinations: a publish step that treats them specially (unlink before rename, …)
+		// would show as an extra remove/rename-away in the trace and as a missing destination after a kill
+		{name: "optimize-inplace-0444", proto: "api:flag:2:2:-", dest: "in.pdf", fin: "ok", noOut: true, mode: 0o444,
+			run: func(d string) error { return api.OptimizeFile(p(d, "in.pdf"), "", conf()) }},
+		{name: "optimize-inplace-0400", proto: "api:flag:2:2:-", dest: "in.pdf", fin: "ok", noOut: true, mode: 0o400,
+			run: func(d string) error { return api.OptimizeFile(p(d, "in.pdf"), "", conf()) }},
+		{name: "writereader-existing-0444", proto: "pdf:none:-:3", dest: "out.pdf", fin: "ok", mode: 0o444,
+			run: func(d string) error {
+				return pdfcpu.WriteReader(p(d, "out.pdf"), bytes.NewReader(bytes.Repeat([]byte("new content "), 3000)))
+			}},
 		{name: "encrypt-inplace", proto: "api:flag:2:2:-", dest: "in.pdf", fin: "ok", enc: true, noOut: true,
 			run: func(d string) error { return api.EncryptFile(p(d, "in.pdf"), "", encConf()) }},
 		{name: "optimize-corrupt-inplace", proto: "api:flag:2:2:-", dest: "in.pdf", fin: "err", corrupt: true, noOut: true,
@@ -150,6 +161,29 @@ func ops() []op {
 				ctx.Write.DirName = d
 				ctx.Write.FileName = "out.pdf"
 				return pdfcpu.WriteContext(ctx)
+			}},
+		{name: "rotate-existing-0400", proto: "api:flag:2:2:3", dest: "out.pdf", fin: "ok", mode: 0o400,
+			run: func(d string) error { return api.RotateFile(p(d, "in.pdf"), p(d, "out.pdf"), 90, nil, conf()) }},
+		{name: "writecontext-existing-0444", proto: "pdf:flag:-:3", dest: "out.pdf", fin: "ok", mode: 0o444,
+			run: func(d string) error {
+				ctx, err := api.ReadContextFile(p(d, "in.pdf"))
+				if err != nil {
+					return err
+				}
+				ctx.Write.DirName = d
+				ctx.Write.FileName = "out.pdf"
+				return pdfcpu.WriteContext(ctx)
+			}},
+		{name: "cli-watermark-stdin-existing-0444", proto: "cli:-:3", dest: "out.pdf", fin: "ok", stdin: true, mode: 0o444,
+			run: func(d string) error {
+				in, out := "-", p(d, "out.pdf")
+				wm, err := api.TextWatermark("Draft", "fo:Courier, scale:.9, op:.6", true, false, types.POINTS)
+				if err != nil {
+					return err
+				}
+				cmd := &cli.Command{InFile: &in, OutFile: &out, Watermark: wm, Conf: conf()}
+				_, err = cli.AddWatermarks(cmd)
+				return err
 			}},
 		{name: "cli-watermark-stdin-existing", proto: "cli:-:3", dest: "out.pdf", fin: "ok", stdin: true,
 			run: func(d string) error {
@@ -198,7 +232,7 @@ func main() {
 	h := &harness{r: r, base: base}
 	h.prepare()
 	all := ops()
-	n := r.Pick(6, len(all))
+	n := r.Pick(9, len(all))
 	for _, o := range all[:n] {
 		h.runOp(o)
 	}
@@ -260,6 +294,11 @@ func (h *harness) initial(o op) map[string]entry {
 		} else {
 			m["out.pdf"] = entry{0o600, []byte("EXISTING OUTPUT, not a PDF")}
 		}
+	}
+	if o.mode != 0 {
+		e := m[o.dest]
+		e.mode = o.mode
+		m[o.dest] = e
 	}
 	return m
 }
